@@ -16,7 +16,7 @@
 (* every disagreement is reported with a reason, so that the harness can   *)
 (* attribute it to the property that speaks about that observable.         *)
 (***************************************************************************)
-EXTENDS Api
+EXTENDS Api, Order
 
 Trace == ndJsonDeserialize("trace.ndjson")
 
